@@ -12,6 +12,7 @@ import BB.Oracle.Callable
 import BB.Oracle.Notifier
 import BB.Oracle.Ctx
 import BB.Oracle.Workers
+import BB.Oracle.Worker
 
 open BB.Oracle
 
@@ -23,7 +24,8 @@ def families : List (String × Fam) := [
   ("callable", CallableFam.fam),
   ("notifier", NotifierFam.fam),
   ("ctx", CtxFam.fam),
-  ("workers", WorkersFam.fam)
+  ("workers", WorkersFam.fam),
+  ("worker", WorkerFam.fam)
 ]
 
 structure OAcc (σ : Type) where
